@@ -1,6 +1,7 @@
 """C07 — source text denotes one tree: binding table, associativity, desugarings, separators."""
 from mirlib import *
 from rules import tables
+from rules.psc import sym
 from rules.shared import deref, truth
 
 META = {
@@ -206,6 +207,14 @@ def run(ctx, rep):
                             p.blocks.index(ds_[0][1]) <= p.blocks.index(adv_blocks[0]) and idx_adv[0] < i
                         if ds_ and ds_[0][1] == adv_blocks[0]:
                             order_ok = order_ok and ds_[0][0] == 'assign'      # a statement of the block precedes its terminator call
+                    elif src[0] == 'ref' and src[1][1:].isdigit() and 1 < int(src[1][1:]) <= pi.arg_count and 'lexer::Token' in pi.local_ty(int(src[1][1:])) \
+                            and not pi.defs().get(int(src[1][1:])):
+                        # precedence() of a token the caller handed in: every caller hands in (a copy of) its current token, and this
+                        # routine consumes the operator only afterwards
+                        k_ = int(src[1][1:]) - 1
+                        cs_ = [(cf, cb, ct) for cf, cb, ct in F.callers_of(lambda p_: p_ == pi.path) if cf.crate == 'lib' and not cf.path.startswith('parser::tests')]
+                        order_ok = bool(cs_) and bool(idx_adv) and idx_adv[0] < i and all(
+                            len(ct['args']) > k_ and 'current_token' in str(sym(cf, ct['args'][k_])) for cf, cb, ct in cs_)
                     else:
                         okp = False
                 rep.ob(okp and order_ok, 'R07.2', pi.path, 'recursive power',
